@@ -22,7 +22,7 @@ import errno as _errno
 import re
 
 REAL = {}
-for _n in ("stat", "lstat", "open", "write", "read", "close", "fsync", "replace", "rename", "remove", "unlink",
+for _n in ("getcwd", "stat", "lstat", "open", "write", "read", "close", "fsync", "replace", "rename", "remove", "unlink",
            "mkdir", "makedirs", "rmdir", "listdir", "utime", "getpid", "link", "truncate", "ftruncate", "access", "chmod",
            "lseek", "fstat", "scandir"):
     REAL[_n] = getattr(os, _n)
@@ -103,6 +103,7 @@ class Seam:
         os.fsync = s._os_fsync
         os.ftruncate = s._os_ftruncate
         os.getpid = lambda: s.current.pid if s.current is not None else REAL["getpid"]()
+        os.getcwd = lambda: s.current.cwd if (s.current is not None and not s.inside) else REAL["getcwd"]()
         builtins.open = s._open
         io.open = s._open
         importlib.machinery.SourceFileLoader = SimSourceFileLoader
